@@ -32,7 +32,7 @@ def nontriv(scen, obs):
 
 
 def scenarios(ctx, n, deep=False):
-    bias = {'files': [1, 2, 2, 3], 'p_equal_files': 0.5, 'p_cache': 0.75, 'p_contract': 0.3}
+    bias = {'files': [1, 2, 2, 3], 'p_equal_files': 0.5, 'p_cache': 0.75, 'p_contract': 0.3, 'p_shared_alphabet': 0.4}
     return [D.gen_scenario(ctx.rng, bias) for _ in range(n)]
 
 
